@@ -148,9 +148,22 @@ func (r *Report) classify(obls, covers, canaries []*Obligation, res map[*Obligat
 			}
 		}
 	}
+	groupAll := map[string]int{}
+	groupDead := map[string]int{}
 	for _, o := range covers {
 		s := res[o]
 		r.solverTime += s.Seconds
+		if o.Group != "" {
+			groupAll[o.Group]++
+			if s.Status == "unsat" {
+				groupDead[o.Group]++
+			} else if s.Status != "sat" {
+				r.siteUnknown++
+			} else {
+				r.coverOK++
+			}
+			continue
+		}
 		switch s.Status {
 		case "sat":
 			r.coverOK++
@@ -168,6 +181,12 @@ func (r *Report) classify(obls, covers, canaries []*Obligation, res map[*Obligat
 			}
 			// quantified assumptions: satisfiability not decided; reported, not fatal
 			r.undecided = append(r.undecided, o.Name+": cover "+s.Status)
+		}
+	}
+	for _, g := range sortedKeys(groupAll) {
+		if groupDead[g] == groupAll[g] {
+			r.vacuous = append(r.vacuous, g)
+			r.say("VACUOUS: %s: no call site / return the clause applies to is reachable under the contracts", g)
 		}
 	}
 	for _, o := range canaries {
